@@ -14,6 +14,15 @@ CHECKS = {
                 text="the constructor's stored checkpoint is proved to be the loop-head state sigma(k) of the uninterrupted run (same geometry spec function), "
                      "the loop's entry obligations are proved from it; equal states give equal continuations",
                 note=TRUST),
+    "C12": dict(level="proof", technique="contract-based deductive verification (AST->SMT, z3+cvc5) over integer-sequence terms; frame check for rank independence; bounded oracle",
+                text="per-rank stream == strided slice of one global draw keyed by seed+epoch, length == len(sampler), repeats occupy consecutive slots: "
+                     "postconditions at the yield sites of DistributedSampler/RandomSampler/WeightedSampler.__iter__, lengths of ClassBalancedSampler, all discharged; "
+                     "the two internal asserts of DistributedSampler.__iter__ are proved",
+                note=TRUST + "; torch.randperm/multinomial/randint are uninterpreted functions of (generator key, draw number); torch's own __iter__ for num_repeats==1 is trusted"),
+    "C13": dict(level="proof", technique="contract-based deductive verification (loop invariants with variant on the per-class chunk loop) + bounded stand-in for multiset clauses",
+                text="class-balanced: chunk lengths sum to samples_per_class per class (invariant + termination), weighted: no repeats / valid indices from the multinomial axiom, "
+                     "length modes of the semi sampler; evenness, pool exhaustion and alternation only bounded (stated in evidence)",
+                note=TRUST),
 }
 PENDING = "check not built yet in this round (work in progress, see DESIGN.md Appendix B)"
 NOT_APPLICABLE = {f"C{i:02d}": PENDING for i in range(1, 21)}
